@@ -78,6 +78,7 @@ class Engine:
         self.trail = []  # (taken, other_side_feasible)
         self.decided = {}
         self.rnd_cache = {}
+        self.rnd_results = set()
         self.uf_apps = {}  # id -> exact-semantics axiom of each mul/div UF application on this path
         self.vars = {}  # name -> z3 const, declaration order
         self.kinds = {}
@@ -207,6 +208,20 @@ class Engine:
                 raise Budget("time")
         return self.stats["paths"]
 
+    def rounding_axioms(self):
+        """monotonicity and oddness of round(., nd) over the applications on this path"""
+        items = [(r, x) for (nd, _), (r, x) in self.rnd_cache.items()]
+        ax = []
+        for i, (ri, xi) in enumerate(items):
+            for j, (rj, xj) in enumerate(items):
+                if i == j:
+                    continue
+                ax.append(z3.Implies(xi <= xj, ri <= rj))
+                if i < j:
+                    ax.append(z3.Implies(xi <= -xj, ri <= -rj))
+                    ax.append(z3.Implies(-xi <= xj, -ri <= rj))
+        return ax
+
     # ------------------------------------------------------------------ models of library primitives
     def rnd(self, term, nd):
         if self.round_mode == "ideal":
@@ -222,18 +237,22 @@ class Engine:
             fr = Fraction(term.numerator_as_long(), term.denominator_as_long()) if z3.is_rational_value(term) else Fraction(term.as_long())
             return z3.RealVal(Fraction(round(fr, nd)))
         h = z3.RealVal(Fraction(1, 2 * 10 ** nd))
+        if (nd, term.get_id()) in self.rnd_results:
+            return term  # round(round(x, nd), nd) == round(x, nd)
         if self.round_mode == "eps":
             key = (nd, term.get_id())
             hit = self.rnd_cache.get(key)
             if hit is not None:
                 return hit[0]
             r = z3.Real(f"rnd{nd}!{len(self.rnd_cache)}")
+            self.rnd_results.add((nd, r.get_id()))
             self.solver.add(r - term <= h, term - r <= h)
             for g in (-100, 0, 100):
                 self.solver.add(z3.Implies(term >= g, r >= g), z3.Implies(term <= g, r <= g))
             self.rnd_cache[key] = (r, term)
             return r
         r = _rnd_fn(nd)(term)
+        self.rnd_results.add((nd, r.get_id()))
         key = (nd, term.get_id())
         if key not in self.rnd_cache:
             self.rnd_cache[key] = (r, term)
